@@ -780,7 +780,15 @@ Retired(S, e, S2, d) ==
   \/ e.op = "Nack" /\ d \in Named(S, e) /\ DLable(S, d)
   \/ e.op = "DLSweep" /\ DLable(S, d)
   \/ e.op \in {"DeleteSub", "ExpireSubs"} /\ ~SubLive(S2, d[2])
-  \/ e.op \in {"SeekTime", "SeekSnap"} /\ d[2] \in SubsNamed(S, e.sub)
+  \* "a seek moves past it": only what the seek's target really leaves behind - a seek to a time
+  \* retires what was published at or before it, a seek to a snapshot what the snapshot does not
+  \* hold (not unacknowledged when it was taken, not published since)
+  \/ /\ e.op = "SeekTime" /\ d[2] \in SubsNamed(S, e.sub)
+     /\ ("le" \notin DOMAIN e \/ d \in RangeOf(e.le) \/ S.del[d].exp <= e.t1)
+  \/ /\ e.op = "SeekSnap" /\ d[2] \in SubsNamed(S, e.sub)
+     /\ \/ e.snap \notin DOMAIN S.gsnap \/ e.snap \notin DOMAIN S.snaps
+        \/ S.snaps[e.snap].topic # S.subs[d[2]].topic
+        \/ ~(d[1] \in S.gsnap[e.snap].unacked \/ S.del[d].pub > S.gsnap[e.snap].at2)
 
 Addressed(S, e) ==   \* the subscriptions an operation is allowed to touch deliveries of
   CASE e.op \in {"Pull", "PullTimeout", "SeekTime", "SeekSnap"} -> SubsNamed(S, e.sub)
@@ -797,13 +805,23 @@ VGeneric1(S, e, S2) ==
   \cup Chk("C02:other-subscription-affected",
       \A d \in Dels(S) : d[2] \notin Addressed(S, e) => SameDel(S, S2, d))
 
+\* ONE request carrying acknowledgements and nacks (actions.MessageStreamRequest{Ack, Nack}, what
+\* the HTTP pusher sends): one transaction - judged as an Acknowledge followed, with no state in
+\* between visible or left behind, by a nack (backoff / dead-letter).
+EvNack(e) == [op |-> "Nack", ids |-> e.nids, bo |-> e.bo, t0 |-> e.t0, t1 |-> e.t1, code |-> "OK"]
+VAckNack(S, e, S2) ==
+  IF e.code # "OK" THEN VErr(S, e, S2)
+  ELSE LET M == MidAN(S, e, S2) IN
+       VAck(S, EvAck(e), M) \cup VGeneric1(S, EvAck(e), M)
+       \cup VNack(M, EvNack(e), S2) \cup VGeneric1(M, EvNack(e), S2)
+
 VStreamAN(S, e, S2) ==
   IF e.code # "OK" THEN VErr(S, e, S2)
   ELSE LET M == MidAN(S, e, S2) IN
        VAck(S, EvAck(e), M) \cup VGeneric1(S, EvAck(e), M)
        \cup VModAck(M, EvMod(e), S2) \cup VGeneric1(M, EvMod(e), S2)
 
-VGeneric(S, e, S2) == IF e.op = "StreamAN" /\ e.code = "OK" THEN {} ELSE VGeneric1(S, e, S2)
+VGeneric(S, e, S2) == IF e.op \in {"StreamAN", "AckNack"} /\ e.code = "OK" THEN {} ELSE VGeneric1(S, e, S2)
 
 (***************************************************************************)
 (* Dispatch                                                                *)
@@ -836,6 +854,7 @@ V(S, e, S2) ==
     [] e.op = "ModAck" -> VModAck(S, e, S2)
     [] e.op = "Nack" -> VNack(S, e, S2)
     [] e.op = "StreamAN" -> VStreamAN(S, e, S2)
+    [] e.op = "AckNack" -> VAckNack(S, e, S2)
     [] e.op = "SeekTime" -> VSeekTime(S, e, S2)
     [] e.op = "CreateSnap" -> VCreateSnap(S, e, S2) \cup VRace(S, e, S2)
     [] e.op = "DeleteSnap" -> VDeleteSnap(S, e, S2)
@@ -859,7 +878,7 @@ V(S, e, S2) ==
 (***************************************************************************)
 GhostAcked(S, e, S2) ==
   LET base ==
-    CASE e.op \in {"Ack", "StreamAN"} /\ e.code = "OK" ->
+    CASE e.op \in {"Ack", "StreamAN", "AckNack"} /\ e.code = "OK" ->
            S.acked \cup {d \in Named(S, e) : d[2] \in SubsNamed(S, e.sub)}
       [] e.op \in {"SeekTime", "SeekSnap"} /\ e.code = "OK" ->
            {d \in S.acked : d[2] \notin SubsNamed(S, e.sub)}
